@@ -72,12 +72,6 @@ def r_property(ctx, mc_runs, required_actions, render_cls, run_calls, dom, assum
         ],
     })
     ctx.assumptions += assumptions
-    # a thorough-tier trace can be several GB: it has been judged, keep the disk for the next check
-    try:
-        if os.path.getsize(trace) > 500 * 1000 * 1000:
-            os.remove(trace)
-    except OSError:
-        pass
 
 
 def first_line(path):
